@@ -230,7 +230,7 @@ func runC05(t *Trace, r *Rng, tier string, _ []string) {
 			}
 			_ = mkReq
 			size, from := r.Intn(nIDs+3), r.Intn(3)
-			sortKind := r.Intn(4)
+			sortKind := r.Intn(6)
 			facets := r.Chance(40)
 			fields := r.Chance(40)
 			hl := r.Chance(30)
@@ -244,6 +244,10 @@ func runC05(t *Trace, r *Rng, tier string, _ []string) {
 					req.SortByCustom(search.SortOrder{&search.SortField{Field: "t0", Mode: search.SortFieldMin, Missing: search.SortFieldMissingFirst}, &search.SortDocID{}})
 				case 2:
 					req.SortBy([]string{"-n0", "_id"})
+				case 4: // fields without doc values: first one of them ...
+					req.SortBy([]string{"k0", "_id"})
+				case 5: // ... then both together
+					req.SortBy([]string{"k0", "-k1", "_id"})
 				default:
 					req.SortBy([]string{"_id"})
 				}
@@ -257,6 +261,7 @@ func runC05(t *Trace, r *Rng, tier string, _ []string) {
 					nf.AddNumericRange("neg", nil, &z)
 					nf.AddNumericRange("pos", &z, nil)
 					req.AddFacet("fn", nf)
+					req.AddFacet("fk", bleve.NewFacetRequest("k1", 3))
 				}
 				if fields {
 					req.Fields = []string{"t0", "n0", "b0"}
@@ -270,7 +275,7 @@ func runC05(t *Trace, r *Rng, tier string, _ []string) {
 			}
 			var fnames []string
 			if facets {
-				fnames = []string{"ft", "fn"}
+				fnames = []string{"ft", "fn", "fk"}
 			}
 			scoresCompared := withScores || sortKind == 0
 			rr, err := ref.idx.Search(build(q))
